@@ -148,6 +148,13 @@ Step ==
        [] ev = "died" ->
             /\ Viol(r.how, r.msg) /\ nviol' = nviol + 1
             /\ UNCHANGED <<scen, busyKind, nthreads, inBusy, quickSeen, suspended, first, runOn, period, armed, owed, s1, s2, sigs, nscan, t0, longBusy, sysPend>>
+       \* (property C08) a coroutine with a typed resume argument or yield value ran for several slices: what its
+       \* resumer saw must be exactly what the body yielded and returned - the preemption handler leaves it alone
+       [] ev = "typed" ->
+            LET bad == r.got # r.want IN
+            /\ (bad => Viol("values_corrupted", <<r.kind, r.got, r.want>>))
+            /\ nviol' = nviol + Count(bad)
+            /\ UNCHANGED <<scen, busyKind, nthreads, inBusy, quickSeen, suspended, first, runOn, period, armed, owed, s1, s2, sigs, nscan, t0, longBusy, sysPend>>
        [] ev = "mend" ->
             LET dead == longBusy /\ nscan = 0 /\ "t" \in DOMAIN r /\ r.t - t0 >= 300000 IN
             /\ (dead => Viol("monitor_dead", r.t - t0))
